@@ -139,6 +139,22 @@ pub fn hand(b: &mut Builder) {
     b.program("tuple2_probe", Desc::Tuple(vec![p1, p2]));
     let p = b.p();
     b.program("tuple3_mixed", Desc::Tuple(vec![sc(Sc::U8), sc(Sc::Str), p]));
+    // the last member accepting null does not make it optional; nor does Option look inside
+    let p = b.p();
+    b.program("tuple2_option_last", Desc::Tuple(vec![sc(Sc::U8), Desc::Option(bx(sc(Sc::U8)))]));
+    b.program("tuple3_option_last", Desc::Tuple(vec![sc(Sc::U8), sc(Sc::Bool), Desc::Option(bx(p))]));
+    b.program("vec_tuple2_json_last", Desc::Vec(bx(Desc::Tuple(vec![sc(Sc::Str), Desc::Json]))));
+    // zero-sized element types
+    b.program("vec_unit", Desc::Vec(bx(sc(Sc::Unit))));
+    b.program("hashset_unit", Desc::HashSet(bx(sc(Sc::Unit))));
+    b.program("hashmap_str_unit", Desc::HashMap(KeyTy::Str, bx(sc(Sc::Unit))));
+    b.program("vec_phantom", Desc::Vec(bx(Desc::Phantom)));
+    b.program("array2_unit", Desc::Array(2, bx(sc(Sc::Unit))));
+    b.program("option_option_u8", Desc::Option(bx(Desc::Option(bx(sc(Sc::U8))))));
+    b.program("vec_option_option_char", Desc::Vec(bx(Desc::Option(bx(Desc::Option(bx(sc(Sc::Char))))))));
+    b.program("option_json", Desc::Option(bx(Desc::Json)));
+    b.program("vec_option_unit", Desc::Vec(bx(Desc::Option(bx(sc(Sc::Unit))))));
+    b.program("hashmap_option_json", Desc::HashMap(KeyTy::Str, bx(Desc::Option(bx(Desc::Json)))));
     let (p1, p2, p3) = (b.p(), b.p(), b.p());
     b.program(
         "tuple2_nested",
@@ -168,7 +184,8 @@ pub fn hand(b: &mut Builder) {
 
     // empty struct
     let s_empty = b.strukt("HEmpty", None, Deny::No, Validate::No, vec![]);
-    b.program("struct_empty", s_empty);
+    b.program("struct_empty", s_empty.clone());
+    b.program("vec_struct_empty", Desc::Vec(bx(s_empty)));
     let s_empty_deny = b.strukt("HEmptyDeny", None, Deny::Default, Validate::No, vec![]);
     b.program("struct_empty_deny", s_empty_deny);
 
@@ -215,6 +232,17 @@ pub fn hand(b: &mut Builder) {
     let s = b.strukt("HEscapedRename", Some(RenameAll::Camel), Deny::Default, Validate::No, fields);
     b.program("struct_escaped_rename", s.clone());
     b.program("vec_struct_escaped_rename", Desc::Vec(bx(s)));
+
+    // leading underscores are part of the key wherever camelCase is not involved
+    let mut oo = FieldDef::plain("_maybe_twice", Desc::Option(bx(Desc::Option(bx(sc(Sc::U8))))));
+    oo.default = Dflt::No;
+    let fields = vec![b.f("_reserved"), b.f("__hidden"), b.f("_Tag"), b.f("reserved"), oo];
+    let s = b.strukt("HUnderscore", None, Deny::Default, Validate::No, fields.clone());
+    b.program("struct_underscore", s.clone());
+    b.program("vec_struct_underscore", Desc::Vec(bx(s)));
+    let fields: Vec<FieldDef> = fields.into_iter().filter(|f| f.ident != "_Tag").collect();
+    let s = b.strukt("HUnderscoreLower", Some(RenameAll::Lower), Deny::No, Validate::No, fields);
+    b.program("struct_underscore_lower", s);
 
     // identifiers that dodge a keyword with a trailing underscore are keys like any other
     let fields = vec![b.f("type_"), b.f("ref_"), b.f("in_"), b.f("size_"), b.f("match_")];
@@ -412,12 +440,15 @@ pub fn hand(b: &mut Builder) {
     e1.error_b = true;
     let mut e2 = FieldDef::plain("nested_b", s_plain.clone());
     e2.error_b = true;
+    e2.needs_predicate = true;
     let mut e3 = b.f("try_b");
     e3.error_b = true;
     e3.conv = Conv::TryFrom { src: Desc::Vec(bx(b.p())), fn_id: b.fid(), by_ref: false };
+    e3.needs_predicate = true;
     let mut e4 = FieldDef::plain("list_b", Desc::Vec(bx(sc(Sc::U8))));
     e4.error_b = true;
-    let e0 = b.f("plain");
+    let mut e0 = b.f("plain");
+    e0.needs_predicate = true;
     let s = b.strukt("HFieldErr", None, Deny::No, Validate::No, vec![e0, e1, e2, e3, e4]);
     b.program("struct_field_error", s.clone());
     b.program("vec_struct_field_error", Desc::Vec(bx(s)));
@@ -480,6 +511,8 @@ pub fn hand(b: &mut Builder) {
         VariantDef { ident: "IOError".into(), rename: None, rename_all: None, fields: None },
         VariantDef { ident: "Sha256Sum".into(), rename: None, rename_all: None, fields: None },
         VariantDef { ident: "V2".into(), rename: None, rename_all: None, fields: None },
+        VariantDef { ident: "Rounded_Box".into(), rename: None, rename_all: None, fields: None },
+        VariantDef { ident: "snake_case_variant".into(), rename: None, rename_all: None, fields: None },
     ];
     let e = b.add_type("HUnitAcronym", TypeKind::UnitEnum { rename_all: Some(RenameAll::Camel), validate: Validate::No, variants });
     b.program("enum_unit_acronym_camel", e.clone());
@@ -771,6 +804,10 @@ fn gen_fields(b: &mut Builder, rng: &mut Rng, rename_all: Option<RenameAll>, nam
         }
         if !f.skip && rng.chance(1, 8) {
             f.error_b = true;
+        }
+        if !f.skip {
+            // a bound-only attribute; decided without drawing so that the catalogue keeps its shape
+            f.needs_predicate = crate::rng::hash_str(&f.ident) % 4 == 0;
         }
         if rng.chance(1, 4) {
             // rename: sometimes to a near-miss of another spelling of the same identifier
